@@ -1,4 +1,4 @@
-import CifModel.Lemmas.ParseCBTrace
+import CifModel.Lemmas.ParseCBSkip
 import CifModel.Spec.Traversal
 /-
   Property C15 — parse-time callbacks mirror the document and steer what is stored.
@@ -42,6 +42,27 @@ def C15_syntax_only_same_log_full (erase : Ev → Ev) (evEq : List Ev → List E
   ∀ (d : Doc) (p : Prog), (∀ k e, p k e = p k (erase e)) →
     evEq ((parseCB p true (tokensOf d)).1.map erase) ((parseCB p false (tokensOf d)).1.map erase) = true
     ∧ (parseCB p true (tokensOf d)).2.1 = (parseCB p false (tokensOf d)).2.1
+
+-- "everything else is stored as in an unfiltered parse", first half: nothing is altered or invented — whatever a filtered
+-- parse stores (block, frame, loop, packet, scalar item) is also stored, with the same value, by the unfiltered parse
+def C15_itemsOf (l : Loop) : List (Str × V) := List.zip l.names (l.packets.headD [])
+def C15_subLoop (a b : Loop) : Bool :=
+  if isScalarLoop a then isScalarLoop b && (C15_itemsOf a).all (fun x => (C15_itemsOf b).any (fun y => x.1 == y.1 && V.beq x.2 y.2))
+  else a.names == b.names && a.category == b.category && a.packets.all (fun pk => b.packets.any (V.beqList pk))
+mutual
+  def C15_subCont : Container → Container → Bool
+    | .mk c fs ls, b => c == b.code && C15_subConts fs b.frames && ls.all (fun l => b.loops.any (C15_subLoop l))
+  def C15_subConts : List Container → List Container → Bool
+    | [], _ => true
+    | f :: fs, gs => gs.any (fun g => C15_subCont f g) && C15_subConts fs gs
+end
+
+/-- NOT PROVED (checked by the pcb oracle): for every document and every program, what the filtered parse stores is a
+    sub-structure of the document's denotation (= what the unfiltered parse stores, `C15_all_continue_mirror_full`).
+    The second half — everything that is *not* bypassed is stored — needs the declarative notion of "bypassed" of the
+    Python oracle (`Sim` in tools/gen/pcb.py) and is not stated in Lean. -/
+def C15_skip_semantics_rest_full : Prop :=
+  ∀ (d : Doc) (p : Prog), C15_subConts (parseCB p true (tokensOf d)).2.2 (denote d) = true
 
 -- ---- proved ------------------------------------------------------------------------------------------------------
 
@@ -186,6 +207,70 @@ theorem C15_positive_aborts (p : Prog) (storing : Bool) (toks : List Tok) (k : N
   refine ⟨h.1, h.2.1, ?_⟩
   rw [h.2.2]; simp [hpos]
 
+/-- **SKIP semantics, part 1 — a directive opens a skipped region.**  At every start call site (nothing being skipped),
+    SKIP_CURRENT puts the element's content at depth 1 and SKIP_SIBLINGS at depth 2 (so that the depth is still 1 after
+    the element: its following siblings are skipped too); a loop so answered is not created; at the end call sites and at
+    items SKIP_SIBLINGS puts the following siblings at depth 1 (2 for a scalar item, popped to 1 by parse_item); a scalar
+    item answered SKIP_CURRENT / SKIP_SIBLINGS is not stored, a packet whose end is not answered CONTINUE is not recorded. -/
+theorem C15_skip_opens_region (p : Prog) (s : St) (hs : s.skip = 0) :
+    (∀ cont isBlock code,
+      let e := if isBlock then Ev.blockStart (if cont then some code else none) else Ev.frameStart (if cont then some code else none)
+      (p s.n e = SKIP_CURRENT → (contStartStep p cont isBlock code s).1 = OK ∧ (contStartStep p cont isBlock code s).2.skip = 1)
+      ∧ (p s.n e = SKIP_SIBLINGS → (contStartStep p cont isBlock code s).1 = OK ∧ (contStartStep p cont isBlock code s).2.skip = 2))
+    ∧ (∀ cont names,
+      (p s.n (.loopStart names) = SKIP_CURRENT → (loopStartStep p cont names s).2.1.skip = 1 ∧ (loopStartStep p cont names s).2.2.1 = false)
+      ∧ (p s.n (.loopStart names) = SKIP_SIBLINGS → (loopStartStep p cont names s).2.1.skip = 2 ∧ (loopStartStep p cont names s).2.2.1 = false))
+    ∧ ((p s.n .pktStart = SKIP_CURRENT → (pktStartStep p s).2.skip = 1) ∧ (p s.n .pktStart = SKIP_SIBLINGS → (pktStartStep p s).2.skip = 2))
+    ∧ (∀ nm v, p s.n (.item nm v) = SKIP_SIBLINGS → (itemStep p nm OK v s).2.skip = 1)
+    ∧ (∀ items, (p s.n (.pktEnd items) ≠ CONTINUE → (pktEndStep p items s).2.2 = false)
+        ∧ (p s.n (.pktEnd items) = SKIP_SIBLINGS → (pktEndStep p items s).2.1.skip = 1))
+    ∧ (∀ cont nm v, (p s.n (.item nm v) ≠ CONTINUE → (scalarItemStep p cont nm v s).2.2 = none)
+        ∧ (p s.n (.item nm v) = SKIP_SIBLINGS → (scalarItemStep p cont nm v s).2.1.skip = 2)) := by
+  have c1 : SKIP_CURRENT ≠ CONTINUE := by decide
+  have c2 : SKIP_SIBLINGS ≠ CONTINUE := by decide
+  have c3 : SKIP_SIBLINGS ≠ SKIP_CURRENT := by decide
+  refine ⟨?_, ?_, ?_, ?_, ?_, ?_⟩
+  · intro cont isBlock code
+    constructor
+    · intro h; simp [contStartStep, hs, site, h, c1, setSkip]
+    · intro h; simp [contStartStep, hs, site, h, c2, c3, setSkip]
+  · intro cont names
+    constructor
+    · intro h; simp [loopStartStep, hs, site, h, c1, setSkip]
+    · intro h; simp [loopStartStep, hs, site, h, c2, c3, setSkip]
+  · constructor
+    · intro h; simp [pktStartStep, hs, site, h, c1, setSkip]
+    · intro h; simp [pktStartStep, hs, site, h, c2, c3, setSkip]
+  · intro nm v h; simp [itemStep, hs, site, h, c2, c3, setSkip]
+  · intro items
+    constructor
+    · intro h; simp [pktEndStep, hs, h]
+    · intro h; simp [pktEndStep, hs, site, h, c2, c3, setSkip]
+  · intro cont nm v
+    constructor
+    · intro h; simp [scalarItemStep, h]
+    · intro h; simp [scalarItemStep, site, h, c2, c3, setSkip]
+
+/-- **SKIP semantics, part 2 — a skipped region is silent and stores nothing.**  For every token sequence, program and
+    fuel: a production entered while `skip_depth > 0` makes no handler, data-name or keyword callback (the log grows by
+    whitespace callbacks only — comments — and the handler count is unchanged) and stores nothing: no item, no loop, no
+    packet, no frame, no block. -/
+theorem C15_skipped_region_silent (p : Prog) (fuel : Nat) (s : St) (hs : s.skip > 0) :
+    (∀ cont, Quiet s (parseItem p fuel cont none s).2.1 ∧ (parseItem p fuel cont none s).2.2 = none)
+    ∧ (∀ cont, Quiet s (parseLoop p fuel cont s).2.1 ∧ (parseLoop p fuel cont s).2.2 = none)
+    ∧ (∀ loopH names (k : PkSt), k.col = 0 →
+        Quiet s (packetsLoop p loopH names fuel s k).2.1 ∧ (packetsLoop p loopH names fuel s k).2.2.stored = k.stored)
+    ∧ (∀ m cont isBlock code, Quiet s (parseContainer p m fuel cont isBlock code s).2.1
+        ∧ (parseContainer p m fuel cont isBlock code s).2.2.frames = [] ∧ (parseContainer p m fuel cont isBlock code s).2.2.loops = [])
+    ∧ (∀ m cont isBlock c, Quiet s (elemsLoop p m fuel cont isBlock s c).2.1 ∧ (elemsLoop p m fuel cont isBlock s c).2.2 = c)
+    ∧ (∀ m cif acc, Quiet s (blocksLoop p m cif fuel s acc).2.1 ∧ (blocksLoop p m cif fuel s acc).2.2 = acc) :=
+  ⟨fun cont => item_skipped p fuel cont s,
+   fun cont => loop_skipped p fuel cont s hs,
+   fun loopH names k hk => packets_skipped p loopH names s.skip hs fuel s k (by unfold PInv; simp [hk, Bal.refl]),
+   fun m cont isBlock code => (container_skipped p m fuel).1 cont isBlock code s hs,
+   fun m cont isBlock c => (container_skipped p m fuel).2 cont isBlock s c hs,
+   fun m cif acc => blocks_skipped p m cif fuel s acc hs⟩
+
 -- ---- the repaired defect F33, as a statement about the pinned variant ------------------------------------------------
 
 /-- before fix 43d0bb7 a positive answer of handle_loop_start did not skip the loop body: the packets were parsed (with
@@ -237,5 +322,14 @@ example : ((parseCB (fun k _ => if k = 1 then -1 else 0) true (tokensOf C15_demo
 example : (parseCB (fun k _ => if k = 2 then 7 else 0) true (tokensOf C15_demo)).2.1 = 7 := by decide +kernel
 -- the balance hypotheses are satisfiable: entry at depth 0 and at depth 2
 example : Bal 0 1 ∧ Bal 2 2 ∧ ¬ Bal 2 1 := by unfold Bal; omega
+-- the sub-structure relation on the demo: a filtered parse (block_start answers SKIP_CURRENT; an item answers SKIP_CURRENT)
+example : C15_subConts (parseCB (fun k _ => if k = 1 then -1 else 0) true (tokensOf C15_demo)).2.2 (denote C15_demo) = true := by
+  decide +kernel
+example : C15_subConts (parseCB (fun k _ => if k = 2 then -1 else 0) true (tokensOf C15_demo)).2.2 (denote C15_demo) = true
+    ∧ C15_subConts (denote C15_demo) (parseCB (fun k _ => if k = 2 then -1 else 0) true (tokensOf C15_demo)).2.2 = false := by
+  decide +kernel
+-- END and a positive code at invocation 3 (frame_start): last callback, results 0 and 7
+example : (parseCB (fun k _ => if k = 3 then END else 0) true (tokensOf C15_demo)).2.1 = 0
+    ∧ ((parseCB (fun k _ => if k = 3 then END else 0) true (tokensOf C15_demo)).1.filter Ev.isHandler).length = 4 := by decide +kernel
 
 end CifModel
